@@ -411,6 +411,12 @@ CMDS = {
     "sdiff-db-sql": dict(family="sdiff", slots=["b"]),
     "inspect-sql": dict(family="inspect", slots=["b"]),
     "inspect-dir": dict(family="inspect", slots=["dir"]),
+    # 'sdir' = a SQL *schema directory*: a directory of .sql files without atlas.sum (src/schemadir)
+    "inspect-sdir": dict(family="inspect", slots=["sdir"]),
+    "sdiff-sdir-sql": dict(family="sdiff", slots=["sdir", "b"]),
+    "sdiff-sql-sdir": dict(family="sdiff", slots=["a", "sdir"]),
+    "apply-sdir": dict(family="apply", slots=["sdir"]),
+    "diff-sdir": dict(family="diff", slots=["dir", "sdir"]),
     # HCL only
     "apply-hcl": dict(family="apply", slots=[], hcl_only=True),
     "sdiff-hcl-hcl": dict(family="sdiff", slots=[], hcl_only=True),
@@ -458,6 +464,16 @@ def _argv(cmd, src, dev_url, target):
         return ["schema", "diff", "--from", "sqlite://" + target, "--to", f("b.sql")] + d
     if cmd == "inspect-sql":
         return ["schema", "inspect", "--url", f("b.sql")] + d
+    if cmd == "inspect-sdir":
+        return ["schema", "inspect", "--url", f("schemadir")] + d
+    if cmd == "sdiff-sdir-sql":
+        return ["schema", "diff", "--from", f("schemadir"), "--to", f("b.sql")] + d
+    if cmd == "sdiff-sql-sdir":
+        return ["schema", "diff", "--from", f("a.sql"), "--to", f("schemadir")] + d
+    if cmd == "apply-sdir":
+        return ["schema", "apply", "--url", "sqlite://" + target, "--to", f("schemadir"), "--auto-approve"] + d
+    if cmd == "diff-sdir":
+        return ["migrate", "diff", "newmig", "--dir", f("mig"), "--to", f("schemadir")] + d
     if cmd == "inspect-dir":
         return ["schema", "inspect", "--url", f("mig")] + d
     if cmd == "apply-hcl":
